@@ -153,6 +153,8 @@ class Table(object):
         hook = getattr(ex.env, "env_call_hook", None)
         if hook is not None:
             return hook(ex, st, f, argv, kw, text)
+        if ex.env.fn.modname == "jsonrpclib.jsonclass":
+            return self.xlate_call(ex, st, f, argv, kw, text)
         return self.default_env_call(ex, st, f, argv, kw, text)
 
     def default_env_call(self, ex, st, f, argv, kw, text, base=Exception):
@@ -264,13 +266,28 @@ class Table(object):
         some element (the first such one)."""
         from .symexec import Meta
         used("comprehension map rule", self.map_rule.__doc__.strip())
-        it = ex.lift(it)
+        if not (isinstance(it, Meta) and isinstance(it.py, (tuple, list))):
+            it = ex.lift(it)
         mark = V._counter[0]
         st = st.copy()
         j = V.fresh("j", z3.IntSort())
         is_dict_items = isinstance(it, View) and it.kind == "items"
         if isinstance(it, Meta):
-            raise Unsupported("comprehension over a meta sequence")
+            # a python-level sequence known at verification time: unrolled
+            results = [(st, ("val", []))]
+            for item in it.py:
+                def step(s, acc, item=item):
+                    out = []
+                    for s1, ctl in ex.assign(s, gen.target, ex.meta_or_val(item)):
+                        if ctl[0] != "normal":
+                            raise Unsupported("comprehension target")
+                        out.extend(ex.bind(ex.eval(s1, e.elt), lambda s2, v: [(s2, ("val", acc + [ex.lift(v)]))]))
+                    return out
+                results = ex.bind(results, step)
+            if kind == "dict":
+                raise Unsupported("dict comprehension over a meta sequence")
+            mk = (lambda lst: LazySeq(V.mk_list(lst))) if kind == "gen" else V.mk_list
+            return ex.bind(results, lambda s, vals: [(s, ("val", mk(vals)))])
         if is_dict_items:
             d = it.d
             k = V.fresh("k", V.Key)
